@@ -433,8 +433,9 @@ func findMaxOccurence(row []int) int {
 	}
 	var max int = 0
 	var maxElem int
-	for k, v := range countmap {
-		if v > max {
+	// scan the row, not the map, so that ties are broken the same way every run
+	for _, k := range row {
+		if v := countmap[k]; v > max {
 			max = v
 			maxElem = k
 		}
